@@ -930,6 +930,34 @@ func (e *enumerator) nonType() {
 func (e *enumerator) typedefCycle() {
 	b := e.b
 	t := func(i int) string { return b.n(fmt.Sprintf("MutT%d", i)) }
+	// resolvable typedef-of-typedef chain, written so that the fixpoint of ResolveTypedefs
+	// needs several rounds (MutR2 -> MutR1 -> MutR0 -> i32, declared backwards) and used
+	// by a struct: the cycle must be diagnosed although OTHER typedef references of the
+	// file keep making progress
+	resolvable := func(m *M) {
+		addTypedef(m.F, b.n("MutR2"), T(b.n("MutR1")))
+		addTypedef(m.F, b.n("MutR1"), T(b.n("MutR0")))
+		addTypedef(m.F, b.n("MutR0"), T("i32"))
+		addStructLike(m.F, SL(idlast.SKStruct, b.n("MutRS"), Fd(1, "a", T(b.n("MutR2")), nil), Fd(2, "b", ListOf(T(b.n("MutR1"))), nil)))
+	}
+	for n := 1; n <= 3; n++ {
+		n := n
+		for _, before := range []bool{true, false} {
+			before := before
+			what := fmt.Sprintf("typedef cycle of length %d next to a typedef chain that resolves (chain declared %s the cycle)", n, map[bool]string{true: "before", false: "after"}[before])
+			e.add(TypedefCycle, true, fmt.Sprintf("typedef/len%d+resolvable", n), "append", what, func(m *M) {
+				if before {
+					resolvable(m)
+				}
+				for i := 0; i < n; i++ {
+					addTypedef(m.F, t(i), T(t((i+1)%n)))
+				}
+				if !before {
+					resolvable(m)
+				}
+			})
+		}
+	}
 	for n := 1; n <= 3; n++ {
 		for _, chain := range []bool{false, true} {
 			for _, withConst := range []bool{false, true} {
@@ -1547,6 +1575,71 @@ func (e *enumerator) missingInclude() {
 	e.addKind(2, MissingInclude, false, "include-first", "existing", "an include statement (first of the file) for a file in a directory that does not exist", func(m *M) {
 		m.F.Includes = append([]*idlast.Include{{Path: idlast.B(b.n("nosuchdir") + "/" + p)}}, m.F.Includes...)
 	})
+	// the same include STRING resolves for one includer (relative to ITS directory; the
+	// working directory has no such file) and is missing for a later includer in another
+	// directory: a resolution remembered per string instead of per (string, directory)
+	// would hide the error.  deep: the failing include statement sits one level further down.
+	lib := b.n("mutlib") + ".thrift"
+	da, db := b.n("mutsha"), b.n("mutshb")
+	for _, deep := range []bool{false, true} {
+		deep := deep
+		site := "shadowed-by-other-directory"
+		if deep {
+			site += "/deep"
+		}
+		e.addKind(2, MissingInclude, false, site, "append",
+			"new files: "+da+"/user.thrift includes \""+lib+"\" (found next to it), then "+db+"/… includes the same string (no such file there, none in the working directory); both included from", func(m *M) {
+				l := NewFile(da + "/" + lib)
+				addStructLike(l, SL(idlast.SKStruct, b.n("MutLib"), Fd(1, "a", T("i32"), nil)))
+				m.addFile(l)
+				mk := func(name, inc, st string) {
+					f := NewFile(name)
+					ref := idlast.B(inc)
+					f.Includes = append(f.Includes, &idlast.Include{Path: idlast.B(inc), Ref: &ref})
+					addStructLike(f, SL(idlast.SKStruct, b.n(st), Fd(1, "a", T("i32"), nil)))
+					m.addFile(f)
+				}
+				mk(da+"/user.thrift", lib, "MutUser")
+				m.include(da + "/user.thrift")
+				if deep {
+					mk(db+"/inner/other.thrift", lib, "MutOther")
+					mk(db+"/mid.thrift", "inner/other.thrift", "MutMid")
+					m.include(db + "/mid.thrift")
+				} else {
+					mk(db+"/other.thrift", lib, "MutOther")
+					m.include(db + "/other.thrift")
+				}
+			})
+	}
+	// ... and with an EXISTING file of the program that lives in a subdirectory and has no
+	// namesake in the working directory: a new sibling includes it by its bare name, a new
+	// file elsewhere includes the same bare name
+	for _, w := range b.views {
+		dir, base := path.Split(w.name)
+		if dir == "" || w.idx == 0 {
+			continue
+		}
+		if _, clash := b.Texts[base]; clash {
+			continue
+		}
+		w := w
+		sib, oth := dir+b.n("mutsib")+".thrift", db+"/"+b.n("mutoth")+".thrift"
+		e.addKind(2, MissingInclude, false, "shadowed-by-other-directory/existing", "append",
+			"a new sibling of "+w.name+" includes it as \""+base+"\", then a new file in another directory includes the same string; both included from", func(m *M) {
+				mk := func(name, st string) {
+					f := NewFile(name)
+					ref := idlast.B(base)
+					f.Includes = append(f.Includes, &idlast.Include{Path: idlast.B(base), Ref: &ref})
+					addStructLike(f, SL(idlast.SKStruct, b.n(st), Fd(1, "a", T("i32"), nil)))
+					m.addFile(f)
+				}
+				mk(sib, "MutSib")
+				m.include(sib)
+				mk(oth, "MutOth")
+				m.include(oth)
+			})
+		break
+	}
 	if v.idx != 0 {
 		ed := &Edit{Kind: 2, Rule: MissingInclude, Site: "deleted-file", Style: "tree", What: "the included file " + v.name + " removed from the tree", File: v.name, FileIndex: v.idx}
 		ed.build = func() map[string]string {
